@@ -21,16 +21,12 @@ omit [Field K] [IsStrictOrderedRing K] in
 error estimate was beyond the gate `2^p·accuracy` ("converged, but isn't worth projecting") -/
 theorem dae_converged_projected_or_gated (i : DAEIn K) (h : (attemptDAEStep i).1 = true) :
     (attemptDAEStep i).2 = .projected ∨ i.gate < i.errNorm := by
-  unfold attemptDAEStep at h ⊢
-  split
-  · rename_i h1; simp [h1] at h
-  · split
-    · rename_i h2; exact Or.inr h2
-    · split
-      · rename_i h1 h2 h3; simp [h1, h2, h3] at h
-      · split
-        · rename_i h1 h2 h3 h4; simp [h1, h2, h3, h4] at h
-        · exact Or.inl rfl
+  unfold attemptDAEStep attemptDAECore at h ⊢
+  by_cases hg : i.gate < i.errNorm
+  · exact Or.inr hg
+  · left
+    have hg' : ¬ i.gate < i.errNorm := hg
+    cases h1 : i.odeConverged <;> cases h2 : i.projQok <;> cases h3 : i.projUok <;> simp_all [not_lt.mp hg', not_lt.mpr (not_lt.mp hg')]
 
 omit [IsStrictOrderedRing K] in
 /-- the gate never excludes a step that meets the accuracy requirement: `accuracy ≤ 2^p · accuracy` -/
@@ -59,20 +55,142 @@ theorem min_step_forced_may_be_unprojected :
   ⟨⟨true, 100, 16, true, true⟩, 1, by norm_num, by decide, by decide⟩
 
 omit [Field K] [IsStrictOrderedRing K] in
-/-- the same hole for an integrator without error control whose ODE step did not converge (the TODO in `takeOneStep`) -/
+/-- (definitional) an integrator without error control accepts every trial step, converged or not (the TODO in `takeOneStep`) -/
 theorem no_error_control_accepts_anything (minForced converged : Bool) (e acc : K) :
     stepAccepted false minForced converged e acc = true := by
   simp [stepAccepted]
 
-/-- **returned_states_projected**: if the advanced state is a projected one, every state `stepTo` hands out — the step
-state, an interpolated report / event before-state, the backed-up advanced state — is the output of a successful
-projection, except interpolated states when the user turned projection of interpolated states off (those are
-prescribed-only, as documented); a failed projection hands out nothing (it throws). -/
-theorem returned_states_projected (projectInterpolated projOK : Bool) (adv p : Prov) (h : Handed)
+/-- (definitional: reads off the table of `handOut`; used by `callProv_inv`) a projected advanced state is handed out as
+projected on every path, except interpolated states with projection of interpolated states off (prescribed only); a
+failed projection hands out nothing. -/
+theorem handOut_cases (projectInterpolated projOK : Bool) (adv p : Prov) (h : Handed)
     (hadv : adv = .projected) (e : handOut projectInterpolated adv projOK h = some p) :
     p = .projected ∨ (p = .prescribed ∧ projectInterpolated = false ∧ h = .interpolated) := by
   subst hadv
   cases h <;> cases projectInterpolated <;> cases projOK <;> simp [handOut] at e <;> simp [← e]
+
+/-! ## the executed decision structure: `stepLoop`, `callProv`, `sessionProv` (what the driver replays against the code) -/
+
+omit [Field K] [LinearOrder K] [IsStrictOrderedRing K] in
+/-- **stepLoop_projected**: for an error-controlled integrator without a forcing minimum step size, whatever the sequence
+of trial steps (ODE failures, gated steps, projection failures in any order), the step that is finally accepted left the
+advanced state projected — provided only that a step within accuracy is never gated (`gate_ge_acc`). -/
+theorem stepLoop_projected : ∀ (atts : List Att) (cf ef : Nat) (p : Prov) (cf' ef' : Nat),
+    (∀ a ∈ atts, a.errWithinAcc = true → a.gateExceeded = false) →
+    stepLoop true false atts cf ef = some (p, cf', ef') → p = .projected := by
+  intro atts
+  induction atts with
+  | nil => intro cf ef p cf' ef' _ h; simp [stepLoop] at h
+  | cons a rest ih =>
+    intro cf ef p cf' ef' hg h
+    unfold stepLoop at h
+    simp only [] at h
+    split at h
+    · rename_i hacc
+      injection h with h1
+      injection h1 with h2 _
+      rw [← h2]
+      have hga := hg a List.mem_cons_self
+      unfold stepAcceptedB attemptDAECore at hacc
+      unfold attemptDAECore
+      cases h1 : a.odeConverged <;> cases h2 : a.gateExceeded <;> cases h3 : a.projQok <;> cases h4 : a.projUok <;>
+        cases h5 : a.errWithinAcc <;> simp_all
+    · exact ih _ _ _ _ _ (fun b hb => hg b (List.mem_cons_of_mem _ hb)) h
+
+omit [Field K] [LinearOrder K] [IsStrictOrderedRing K] in
+/-- the counters only grow, and a forced / non-error-controlled loop accepts the very first trial step -/
+theorem stepLoop_first_accepted (hasErrCtl : Bool) (a : Att) (rest : List Att) (cf ef : Nat)
+    (h : hasErrCtl = false ∨ True) :
+    stepLoop hasErrCtl true (a :: rest) cf ef =
+      some ((attemptDAECore a.odeConverged a.gateExceeded a.projQok a.projUok).2.1,
+            (if (attemptDAECore a.odeConverged a.gateExceeded a.projQok a.projUok).1 then cf else cf + 1), ef) := by
+  unfold stepLoop stepAcceptedB
+  cases hasErrCtl <;> simp
+
+omit [Field K] [LinearOrder K] [IsStrictOrderedRing K] in
+/-- one `stepTo` call keeps a projected advanced state projected and hands out a projected state, or a prescribed-only
+interpolated one when the user turned projection of interpolated states off -/
+theorem callProv_inv (projInterp : Bool) (c : CallObs) (a2 r : Prov)
+    (hg : ∀ atts, c.step = some atts → ∀ a ∈ atts, a.errWithinAcc = true → a.gateExceeded = false)
+    (h : callProv true false projInterp .projected c = some (a2, r)) :
+    a2 = .projected ∧ (r = .projected ∨ (r = .prescribed ∧ projInterp = false ∧ c.interp = true)) := by
+  unfold callProv at h
+  split at h
+  · cases h
+  · -- advanced state after the (optional) internal step
+    have hadv1 : ∀ a1, (match c.step with
+        | none => some Prov.projected
+        | some atts => Option.map (fun x => x.1) (stepLoop true false atts 0 0)) = some a1 → a1 = .projected := by
+      intro a1 e
+      cases hs : c.step with
+      | none => rw [hs] at e; simpa using e.symm
+      | some atts =>
+        rw [hs] at e
+        simp only [Option.map_eq_some_iff] at e
+        obtain ⟨⟨p, cf, ef⟩, e1, e2⟩ := e
+        rw [← e2]
+        exact stepLoop_projected atts 0 0 p cf ef (hg atts hs) e1
+    simp only [] at h
+    split at h
+    · cases h
+    · rename_i a1 e1
+      have := hadv1 a1 e1; subst this
+      split at h
+      · cases h
+      · rename_i a2' e2
+        have ha2 : a2' = .projected := by
+          split at e2
+          · rcases handOut_cases projInterp c.projOK .projected a2' .backedUp rfl e2 with q | ⟨_, _, q⟩
+            · exact q
+            · cases q
+          · simpa using e2.symm
+        subst ha2
+        split at h
+        · cases h
+        · rename_i r' e3
+          injection h with h1; injection h1 with h2 h3; subst h2; subst h3
+          refine ⟨rfl, ?_⟩
+          split at e3
+          · rename_i hi
+            rcases handOut_cases projInterp c.projOK .projected r' .interpolated rfl e3 with q | ⟨q1, q2, _⟩
+            · exact Or.inl q
+            · exact Or.inr ⟨q1, q2, hi⟩
+          · rcases handOut_cases projInterp c.projOK .projected r' .stepState rfl e3 with q | ⟨_, _, q⟩
+            · exact Or.inl q
+            · cases q
+
+omit [Field K] [LinearOrder K] [IsStrictOrderedRing K] in
+/-- **session_returned_projected**: over a whole session of an error-controlled integrator without a forcing minimum
+step size, started from the projected state `initialize` produces, EVERY state handed out by `stepTo` — for every
+sequence of trial-step outcomes, events, back-ups and interpolations — is the output of successful projections, or a
+prescribed-only interpolated state when projection of interpolated states is off. -/
+theorem session_returned_projected (projInterp : Bool) : ∀ (calls : List CallObs),
+    (∀ c ∈ calls, ∀ atts, c.step = some atts → ∀ a ∈ atts, a.errWithinAcc = true → a.gateExceeded = false) →
+    ∀ p ∈ sessionProv true false projInterp .projected calls, p = .projected ∨ (p = .prescribed ∧ projInterp = false) := by
+  intro calls
+  induction calls with
+  | nil => intro _ p hp; simp [sessionProv] at hp
+  | cons c cs ih =>
+    intro hg p hp
+    unfold sessionProv at hp
+    split at hp
+    · simp at hp
+    · rename_i a2 r e
+      obtain ⟨h1, h2⟩ := callProv_inv projInterp c a2 r (hg c List.mem_cons_self) e
+      subst h1
+      simp only [List.mem_cons] at hp
+      rcases hp with rfl | hp
+      · rcases h2 with q | ⟨q1, q2, _⟩
+        · exact Or.inl q
+        · exact Or.inr ⟨q1, q2⟩
+      · exact ih (fun c' hc' => hg c' (List.mem_cons_of_mem _ hc')) p hp
+
+/-- with a forcing minimum step size the same session function returns a RAW state (the finding) -/
+theorem forced_session_may_return_raw :
+    sessionProv true true true .projected
+      [{ step := some [{ odeConverged := true, gateExceeded := true, projQok := true, projUok := true, errWithinAcc := false }],
+         backedUp := false, interp := false, projOK := true }] = [.raw] := by
+  decide
 
 /-- the projection limit `max(2·tol, √tol)` never refuses a state that is already within tolerance -/
 theorem projection_limit_ge_tol (tol sqrtTol : K) (h : 0 ≤ tol) : tol ≤ max (2 * tol) sqrtTol :=
